@@ -23,7 +23,8 @@ Req(p, cond) == (p \in Props) => cond
 \*   wr    pages that are writable now
 \*   jitp  pages mapped MAP_JIT (macOS): writable iff this thread's JIT write protection is off
 \*   jit   1 = JIT write protection on (the state in which JIT pages can be executed)
-S0 == [phase |-> "start", dirty |-> {}, maps |-> 0, wr |-> {}, jitp |-> {}, jit |-> 1]
+\*   fresh pages obtained as a trampoline that have not been written yet
+S0 == [phase |-> "start", dirty |-> {}, maps |-> 0, wr |-> {}, jitp |-> {}, jit |-> 1, fresh |-> {}]
 PagesOf(o, n) == IF n <= 0 THEN {} ELSE (o \div 4096)..((o + n - 1) \div 4096)
 Writable(pg) == pg \in s.wr \/ (pg \in s.jitp /\ s.jit = 0)
 HasW(prot) == (prot \div 2) % 2 = 1
@@ -37,7 +38,14 @@ PBegin  == Step("PBegin") /\ s.phase = "start" /\ s' = [s EXCEPT !.phase = "run"
 PWrite  ==
   /\ Step("PWrite")
   /\ Req("C01", \A pg \in PagesOf(Ev.off, Ev.len) : Writable(pg))
-  /\ s' = [s EXCEPT !.dirty = @ \cup Range(Ev.off, Ev.len)]
+  \* the entry (arena pages 0 / 1) starts to lead into a trampoline only when nothing of any trampoline (pages 2..) is still
+  \* waiting for its instruction-cache request (Injectorpp!TrampBeforeEntry on the platform's own primitive)
+  /\ Req("C17", (Ev.off < 8192) => (\A c \in s.dirty : c < 8192))
+  \* ... and only when every trampoline obtained so far has its code (a call made by another thread at this instant follows the
+  \* entry into the trampoline)
+  /\ Req("C01", (Ev.off < 8192) => s.fresh = {})
+  /\ Req("C17", (Ev.off < 8192) => s.fresh = {})
+  /\ s' = [s EXCEPT !.dirty = @ \cup Range(Ev.off, Ev.len), !.fresh = @ \ PagesOf(Ev.off, Ev.len)]
 PFlush  == Step("PFlush") /\ s' = [s EXCEPT !.dirty = IF Ev.in_arena THEN @ \ Range(Ev.off, Ev.len) ELSE @]
 PBarrier == Step("PBarrier") /\ s' = s
 POs ==
@@ -59,6 +67,8 @@ POs ==
      IN s' = [s EXCEPT !.maps = IF Ev.call \in {"mmap", "VirtualAlloc"} THEN @ + 1
                                  ELSE IF Ev.call \in {"munmap", "VirtualFree"} THEN @ - 1 ELSE @,
                        !.wr = newwr, !.jitp = newjitp,
+                       !.fresh = IF Ev.call \in {"mmap", "VirtualAlloc"} THEN @ \cup pgs
+                                 ELSE IF Ev.call \in {"munmap", "VirtualFree"} THEN @ \ pgs ELSE @,
                        !.jit = IF Ev.call = "jit_write_protect" THEN Ev.x.enabled ELSE @]
 \* C17: "... after the last write to that range and before control returns to the user"
 PReturn ==
